@@ -266,3 +266,87 @@ PROPS['C17'] = dict(
     assumptions=['binary64 evaluation of lat*3600, the quotients and the blend is covered by correspondence/search, not proved',
                  'header decoding round trip and the 6-decimal rounding budget are checked by correspondence only'],
 )
+
+ANG_TB = ['Model/Angles.lean is a hand-written model of angles.py (one generic definition over an arithmetic record, instantiated '
+          'at Float for the driver and at ℚ for the theorems), tied to the code by the correspondence run: boundary-rich and '
+          'random in the quick tier, EXHAUSTIVE over the 2 592 000-point whole-arc-second lattice in the thorough tier']
+
+PROPS['C08'] = dict(
+    module='GeodeVerif.Proofs.C08', namespace='GeodeVerif.C08',
+    extra_modules=['GeodeVerif.Model.Angles', 'GeodeVerif.Lemmas.C08Lemmas'], drivers=['angdrv'],
+    required_theorems=['dec2dms_exact', 'dec2ddm_exact', 'hp2dec_exact', 'dec2hp_close', 'dec2hp_valid',
+                       'hpangle_accepts_iff_valid', 'gon_exact', 'ctor_sign_dms', 'ctor_sign_ddm', 'chain_closed',
+                       'same_sign', 'dms_hp_valid', 'ddm_hp_valid'],
+    needs_driver=False,
+    correspondence='corr_angles.py',
+    probe='C08.py',
+    rule='correspondence: every number-level function, constructor, method, ordered pair of notations and length-3 chain; '
+         'values within 1e-9" of minute/degree boundaries, 13-decimal HP strings, random reals in [-720, 720], '
+         'negative-zero degrees; floats compared as bit patterns, objects field-wise, errors by kind; distinct by request '
+         'line. search: Fraction oracle of what each notation denotes (1e-8", sign, HP validity, acceptance/rejection).',
+    trusted_base=ANG_TB,
+    assumptions=['the 1e-8" bound for ALL doubles in [-720, 720] is not proved (binary64 error analysis); proved at ℚ, '
+                 'checked exhaustively on the lattice and by search elsewhere',
+                 'from 512 deg up two 13-decimal HP values can share one double; the search writes HP inputs >= 512 deg '
+                 'with at most 12 decimals', '.rad() methods are math.radians of .dec() (covered by correspondence only)'],
+)
+
+PROPS['C12'] = dict(
+    module='GeodeVerif.Proofs.C12', namespace='GeodeVerif.C12',
+    extra_modules=['GeodeVerif.Model.Angles', 'GeodeVerif.Lemmas.C08Lemmas'], drivers=['angdrv'],
+    required_theorems=['add_dec', 'sub_dec', 'radd_dec', 'rsub_dec', 'mul_dec', 'rmul_dec', 'truediv_dec', 'neg_dec',
+                       'abs_dec', 'neg_involutive', 'cmp_dec', 'round_half_unit', 'mod_dec', 'eval_sound', 'errB_le_nodes'],
+    needs_driver=False,
+    correspondence='corr_angles.py',
+    probe='C12.py',
+    rule='correspondence: as C08 plus random expression trees of depth 1..6 over all five classes compared node by node '
+         '(class, fields bitwise, error kind). search: Fraction evaluation of the same trees (1e-8", class of the left '
+         'operand, rounding half unit, comparisons).',
+    trusted_base=ANG_TB,
+    assumptions=['eval_sound is proved with the error recursion errB (one HP rounding per HP-class node, scaled by '
+                 'multipliers); the flat (#nodes)·0.5e-9" bound holds under a no-amplification hypothesis (errB_le_nodes)',
+                 'binary64 accumulation (≈3e-10" per node at 720 deg) is covered by search; trees whose own rounding budget '
+                 'already exceeds 1e-8" are skipped by the search and counted'],
+)
+
+PROPS['C18'] = dict(
+    module='GeodeVerif.Proofs.C18', namespace='GeodeVerif.C18',
+    extra_modules=['GeodeVerif.Model.Sinex', 'GeodeVerif.Spec.Sinex'], drivers=['snxdrv'],
+    required_theorems=['refinement_remove_stns', 'refinement_remove_matrixzeros', 'drop_zero_lines_exact',
+                       'estimates_kept_renumbered', 'submatrix_exact', 'header_count', 'creation_time_format',
+                       'blocks_closed_remove_stns', 'blocks_closed_remove_matrixzeros', 'remove_velocity_exact_partial'],
+    needs_driver=False,
+    correspondence='corr_sinex.py',
+    probe='C18.py',
+    leanchecker=False,
+    rule='correspondence (hand model Model/Sinex.lean, driver snxdrv): generated SINEX 2.02 files (1-12 stations, solution '
+         'numbers 1-3, ±velocities, L/U, random SPD covariances, every station subset for small files, 8 malformed layouts), '
+         'fixed clocks over the whole day and year boundaries; output BYTES of the three editors and the readers\' return '
+         'values compared with the model (pandas stubbed, clock substituted, scratch cwd). search: an independent Python '
+         'implementation of the abstract edit operations.',
+    trusted_base=['Model/Sinex.lean is a hand-written, kernel-evaluable model of the SINEX functions of gnss.py (exact '
+                  'binary64 parse and %.14e formatting on integers), tied to the code by the correspondence run (sampled)',
+                  'Spec/Sinex.lean: abstract solution and render (SINEX 2.02 fixed columns)'],
+    assumptions=['remove_velocity matrix part and the readers are proved for evaluated instances only (universal statements '
+                 'are covered by correspondence and search)',
+                 'Python text-mode newline handling, pandas (stubbed), datetime (substituted clock) are outside the model'],
+)
+
+PROPS['C11'] = dict(
+    module='GeodeVerif.Proofs.C11', namespace='GeodeVerif.C11',
+    required_theorems=['catalogue_size', 'labels_match_names', 'neg_is_negation', 'reverse_pairs', 'reverse_pair_count',
+                       'add_keeps_labels_and_rates', 'add_params', 'iers_conversion', 'iers_rounding_identity',
+                       'chain_triple_count', 'chain_consistency', 'chain_consistency_any_epoch', 'epochs'],
+    tie_functions=['Constants.catalogue_Transformation', 'Constants.catalogue_TransformationSD', 'Constants.iers2trans',
+                   'Constants.Transformation.neg', 'Constants.Transformation.add'],
+    tie_n={'quick': 3000, 'thorough': 100000},
+    probe='C11.py',
+    leanchecker=False,
+    rule='tie: the complete catalogue (120 sets × 17 values + labels + epochs + uncertainty records, with the names they '
+         'are bound to) compared bit for bit with vars(geodepy.constants); iers2trans / __neg__ / __add__ on random '
+         'IERS-style tuples, sets and dates. search: label/reverse/add/chain/unit checks in Fraction arithmetic on the real module.',
+    trusted_base=['the exact-rational reading (GenQ) of constants.py produced by the translator; decimal literals are exact '
+                  'rationals, round(x, 8) is exact round-half-even',
+                  'complete finite tables are settled by kernel evaluation (decide), no native_decide'],
+    assumptions=['the catalogue is checked for internal consistency and convention, not against the IERS web pages (offline)'],
+)
